@@ -15,7 +15,21 @@ namespace Pg.C02
 inductive Key where
   | s (name : String)
   | i (idx : Int)
+  | b (v : Bool)             -- `True` / `False` are `int` instances: admitted keys, equal to `1` / `0`
   deriving DecidableEq, Repr, Inhabited
+
+def Key.num? : Key → Option Int
+  | .i j => some j
+  | .b v => some (if v then 1 else 0)
+  | .s _ => Option.none
+
+/-- Python key equality (`hash` + `==`): `True` and `1` are the same key, but remain
+distinguishable objects (the dict keeps the key object that was inserted first). -/
+def Key.eqv : Key → Key → Bool
+  | .s n1, .s n2 => n1 == n2
+  | k1, k2 => match k1.num?, k2.num? with
+    | some x, some y => x == y
+    | _, _ => false
 
 /-- Python values that cross the API in this property: atoms and nested containers.
 `missing` is `pg.MISSING_VALUE`. Whether a nested container is a plain `list`/`dict` or a
@@ -26,6 +40,8 @@ inductive Val where
   | none
   | bool (b : Bool)
   | int (i : Int)
+  | float (i : Int)          -- the float `i.0` (only integral floats cross the protocol)
+  | negzero                  -- `-0.0` (equal to `0`, `0.0`, `False`; distinguishable from all of them)
   | str (s : String)
   | missing
   | list (xs : List Val)
@@ -52,15 +68,17 @@ def Arg.isPlainMissing : Arg → Bool
   | .plain v => v.isMissing
   | .ins _ => false
 
-/-- `bool` is a subclass of `int`: `True == 1`. -/
+/-- Numeric view: `bool` is a subclass of `int` (`True == 1`), `1 == 1.0`, `0 == -0.0`. -/
 def Val.num? : Val → Option Int
   | .bool b => some (if b then 1 else 0)
   | .int i => some i
+  | .float i => some i
+  | .negzero => some 0
   | _ => Option.none
 
 def lookupKey (k : Key) : List (Key × Val) → Option Val
   | [] => Option.none
-  | (k', v) :: rest => if k' = k then some v else lookupKey k rest
+  | (k', v) :: rest => if k'.eqv k then some v else lookupKey k rest
 
 mutual
   /-- Python `==` on the modelled values (dict equality ignores order). -/
@@ -68,13 +86,11 @@ mutual
     | .none, .none => true
     | .missing, .missing => true
     | .str a, .str b => a == b
-    | .bool a, .bool b => a == b
-    | .bool a, .int b => (if a then 1 else 0) == b
-    | .int a, .bool b => a == (if b then 1 else 0)
-    | .int a, .int b => a == b
     | .list a, .list b => pyEqList a b
     | .dict a, .dict b => a.length == b.length && pyEqKvs a b
-    | _, _ => false
+    | a, b => match a.num?, b.num? with
+      | some x, some y => x == y          -- bool / int / float compare by numeric value
+      | _, _ => false
   def pyEqList : List Val → List Val → Bool
     | [], [] => true
     | x :: xs, y :: ys => pyEq x y && pyEqList xs ys
@@ -204,9 +220,10 @@ def repeatList (n : Nat) (xs : List Val) : List Val :=
   | 0 => []
   | k + 1 => xs ++ repeatList k xs
 
-/-! ### Sorting (key=None). Comparable: all `int`/`bool`, or all `str`; anything else with at
-least two elements is a `TypeError` (the order CPython leaves behind is then unspecified; the
-harness only issues such sorts on two-element lists, which stay as they are). -/
+/-! ### Sorting. Comparable sort keys: all numbers (`bool`/`int`/`float`), or all `str`; anything
+else with at least two elements is a `TypeError` (the order CPython leaves behind is then
+unspecified; the harness only issues such sorts on two-element lists, which stay as they are).
+`key=` is one of a closed family of key functions. -/
 
 inductive SortKind where
   | ints | strs | bad
@@ -223,19 +240,46 @@ def valLt : Val → Val → Bool
     | some x, some y => x < y
     | _, _ => false
 
+/-- The `key=` argument of `sort`: `None`, `len`, `lambda x: -x`, `abs`, `lambda x: 0`. -/
+inductive SortKey where
+  | none | len | neg | abs | const
+  deriving DecidableEq, Repr, Inhabited
+
+/-- The sort key of an item (`Option.none`: the key function raises `TypeError`). Only the order of
+the keys matters, so numeric keys are returned as `int`s. -/
+def keyOf (k : SortKey) (v : Val) : Option Val :=
+  match k with
+  | .none => some v
+  | .const => some (.int 0)
+  | .len => match v with
+    | .str s => some (.int s.length)
+    | .list xs => some (.int xs.length)
+    | .dict kvs => some (.int kvs.length)
+    | _ => Option.none
+  | .neg => v.num?.map (fun x => .int (-x))
+  | .abs => v.num?.map (fun x => .int x.natAbs)
+
 /-- Stable insertion: `x` goes after every element not greater than it. -/
-def insertSorted (x : Val) : List Val → List Val
+def insertSortedBy (lt : Val → Val → Bool) (x : Val) : List Val → List Val
   | [] => [x]
-  | y :: ys => if valLt x y then x :: y :: ys else y :: insertSorted x ys
+  | y :: ys => if lt x y then x :: y :: ys else y :: insertSortedBy lt x ys
 
-def insertionSort (xs : List Val) : List Val := xs.foldl (fun acc x => insertSorted x acc) []
+def insertionSortBy (lt : Val → Val → Bool) (xs : List Val) : List Val :=
+  xs.foldl (fun acc x => insertSortedBy lt x acc) []
 
-/-- `list.sort(reverse=rev)`: reverse keeps the original order of equal elements. -/
-def pySort (xs : List Val) (rev : Bool) : Except Err (List Val) :=
-  if xs.length < 2 then .ok xs
-  else if sortKind xs = .bad then .error .type
-  else if rev then .ok (insertionSort xs.reverse).reverse
-  else .ok (insertionSort xs)
+/-- `list.sort(key=key, reverse=rev)`: the keys are computed first (a raising key function leaves
+the list as it is); the sort is stable, and `reverse` keeps the original order of items with equal
+keys (CPython reverses, sorts, reverses). -/
+def pySort (xs : List Val) (rev : Bool) (key : SortKey) : Except Err (List Val) :=
+  if xs.any (fun x => (keyOf key x).isNone) then .error .type
+  else if xs.length < 2 then .ok xs
+  else
+    let kv := fun x => (keyOf key x).getD .none
+    if sortKind (xs.map kv) = .bad then .error .type
+    else
+      let lt := fun a b => valLt (kv a) (kv b)
+      if rev then .ok (insertionSortBy lt xs.reverse).reverse
+      else .ok (insertionSortBy lt xs)
 
 /-! ## Operations and outcomes -/
 
@@ -244,7 +288,7 @@ inductive LOp where
   | getBad | setBad | delBad
   | set (i : Int) (v : Val) | setSlice (s : Slice) (vs : List Val) | del (i : Int) | delSlice (s : Slice)
   | append (v : Val) | insert (i : Int) (v : Val) | extend (vs : List Val)
-  | pop (i : Option Int) | remove (v : Val) | clear | sort (rev : Bool) | reverse
+  | pop (i : Option Int) | remove (v : Val) | clear | sort (rev : Bool) (key : SortKey) | reverse
   | iadd (vs : List Val) | imul (n : Int) | add (vs : List Val) | mul (n : Int) | copy
   | rebind (pairs : List (Int × Arg))
   deriving Repr, Inhabited
@@ -384,7 +428,7 @@ def specL (xs : List Val) (st : LStep) : LOut :=
     | .error e => fail xs e
   | .remove v => lift (PyList.remove xs v)
   | .clear => okNone []
-  | .sort rev => lift (pySort xs rev)
+  | .sort rev key => lift (pySort xs rev key)
   | .reverse => lift (.ok xs.reverse)
   | .iadd vs => lift (.ok (xs ++ vs))
   | .imul n => lift (.ok (PyList.mul xs n))
@@ -582,7 +626,7 @@ def implL (xs : List Val) (st : LStep) : LOut :=
       | .error e => fail xs e
     | Option.none => fail xs .value
   | .clear => okNone []                                    -- `super().clear()`
-  | .sort rev => match pySort xs rev with                  -- `super().sort(...)`
+  | .sort rev key => match pySort xs rev key with                  -- `super().sort(...)`
     | .ok ys => okNone ys
     | .error e => fail xs e
   | .reverse => okNone xs.reverse                          -- `super().reverse()`
@@ -607,17 +651,18 @@ def implL (xs : List Val) (st : LStep) : LOut :=
 
 /-! ## Dicts -/
 
-def hasKey (kvs : List (Key × Val)) (k : Key) : Bool := kvs.any (fun p => p.1 = k)
+def hasKey (kvs : List (Key × Val)) (k : Key) : Bool := kvs.any (fun p => p.1.eqv k)
 
 /-- `d[k] = v` on a builtin dict: an existing key keeps its position. -/
 def dictSet (kvs : List (Key × Val)) (k : Key) (v : Val) : List (Key × Val) :=
-  if hasKey kvs k then kvs.map (fun p => if p.1 = k then (p.1, v) else p) else kvs ++ [(k, v)]
+  if hasKey kvs k then kvs.map (fun p => if p.1.eqv k then (p.1, v) else p) else kvs ++ [(k, v)]
 
-def dictErase (kvs : List (Key × Val)) (k : Key) : List (Key × Val) := kvs.filter (fun p => !(p.1 = k))
+def dictErase (kvs : List (Key × Val)) (k : Key) : List (Key × Val) := kvs.filter (fun p => !(p.1.eqv k))
 
 def Key.toVal : Key → Val
   | .s n => .str n
   | .i j => .int j
+  | .b v => .bool v
 
 inductive DOp where
   | get (k : Key) | getD (k : Key) (d : Val) | contains (k : Key) | len
